@@ -144,6 +144,57 @@ def wrapper(src, mac, callees, name, argpat, params, callee, has_malloc):
             "  %s.run F fuel { %s }" % (callee, ", ".join(fields)), ""]
 
 
+ONESHOT = (r"size_t nblocks = outlen / (?P<m1>\w+) ; uint8_t t \[ (?P<m2>\w+) \] ; shakeBctx s ; "
+           r"shakeB_absorb \( & s , input , inlen \) ; shakeB_squeezeblocks \( output , nblocks , & s \) ; "
+           r"output \+= nblocks \* (?P<m3>\w+) ; outlen -= nblocks \* (?P<m4>\w+) ; "
+           r"if \( outlen \) \{ shakeB_squeezeblocks \( t , (?P<n1>\w+) , & s \) ; (?P<loop>for \( .* \}) \} "
+           r"shakeB_ctx_release \( & s \) ;$")
+
+
+def oneshot(src, mac, b):
+    """the one-shot `shake128` / `shake256`: fixed statement sequence (refused otherwise) with the rate macros / literals
+    as holes; the copy loop goes through the statement translator of sponge.py"""
+    name = "shake" + b
+    args, body = find_function(src, name)
+    if not re.match(r"\s*uint8_t\s*\*\s*output\s*,\s*size_t\s+outlen\s*,\s*const\s+uint8_t\s*\*\s*input\s*,\s*size_t\s+inlen\s*$", args):
+        raise TranslateError("%s: unexpected parameter list %r" % (name, args))
+    m = re.match(ONESHOT.replace("shakeB", name), " ".join(sponge.tokenize(body, name)))
+    if not m:
+        raise TranslateError("%s: statement sequence not in subset" % name)
+    _, rel = find_function(src, name + "_ctx_release")
+    if sponge.tokenize(rel, name) != "free ( state - > ctx ) ;".split():
+        raise TranslateError("%s_ctx_release is not free(state->ctx)" % name)
+
+    def val(k):
+        x = m.group(k)
+        if x in mac:
+            return mac[x]
+        if re.match(r"0[xX][0-9a-fA-F]+$|\d+$", x):
+            return int(x, 0)
+        raise TranslateError("%s: %r is not a constant" % (name, x))
+    f = sponge.Fn(name, [("output", "out"), ("outlen", "nat"), ("t", "bytearr")], m.group("loop"))
+    loop = f.stmt()
+    if f.peek() is not None or len(f.defs) != 1:
+        raise TranslateError("%s: copy loop not in subset" % name)
+    L = ["structure %s.V where" % name] + ["  %s : %s" % nt for nt in f.fields] + [""]
+    L += ["def %s (F : State → State) (fuel : Nat) : %s.V → Option %s.V :=" % (f.defs[0][0], name, name), "  " + f.defs[0][1]]
+    L += ["/-- size of the stack block `t` of `%s` -/" % name, "def %s.tlen : Nat := %d" % (name, val("m2")),
+          "/-- the one-shot `%s(output, outlen, input, inlen)`; `s0`, `t0`, `ta`, `ia`, `iq1`, `iq2`, `ic`: uninitialised memory -/" % name,
+          "def %s.run (F : State → State) (fuel : Nat) (output : List UInt8) (outputoff outlen : Nat) (input : List UInt8)" % name,
+          "    (inlen : Nat) (s0 : State) (t0 : List UInt8) (ia : Nat) (ta : List UInt8) (iq1 iq2 ic : Nat) : Option (List UInt8) :=",
+          "  let nblocks := outlen / %d" % val("m1"),
+          "  (%s_absorb.run F fuel s0 input inlen ia ta).bind fun a =>" % name,
+          "  (%s_squeezeblocks.run F fuel output outputoff nblocks a.s iq1).bind fun q =>" % name,
+          "  let outputoff := outputoff + nblocks * %d" % val("m3"),
+          "  let outlen := outlen - nblocks * %d" % val("m4"),
+          "  if outlen ≠ 0 then",
+          "    (%s_squeezeblocks.run F fuel t0 0 %d q.s iq2).bind fun q2 =>" % (name, val("n1")),
+          "    (%s ({ output := q.h, outputoff := outputoff, outlen := outlen, t := q2.h, i := ic } : %s.V)).bind fun c =>" % (loop, name),
+          "    some c.output",
+          "  else some q.h", ""]
+    return L
+
+
 def emit(repo):
     src = strip_c_comments(open(os.path.join(repo, "src/common/generic/fips202.c")).read())
     mac = macros(src)
@@ -164,6 +215,8 @@ def emit(repo):
           "  " + body, ""]
     for w in WRAPPERS:
         L += wrapper(src, mac, callees, *w)
+    for b in ("128", "256"):
+        L += oneshot(src, mac, b)
     L += ["end SqiGen.Sponge", ""]
     return "\n".join(L)
 
